@@ -37,7 +37,7 @@ OBLIGATIONS = {"period:valid": 300, "period:missing": 100, "period:gap-missing":
                "stamp-on-boundary": 50, "duplicate-stamps": 20, "rainfall": 50,
                "P=1800": 50, "P=3600": 50, "unit:s": 20, "unit:ms": 20, "unit:us": 20,
                "unit:ns": 20, "tz:utc": 20, "tz:+10": 20, "era:outside-int32-seconds": 20,
-               "era:across-epoch": 3}
+               "era:across-epoch": 3, "kernel:prefilled-buffer": 50}
 
 T0 = 946684800      # 2000-01-01 00:00:00 UTC
 
@@ -193,6 +193,23 @@ def run_case(ctx, case):
         if base is None:
             base = (osec, ov, unit, tz)
             judge(ctx, case, stamps, vals, P, maxgap, rainfall, osec, ov)
+            # the kernel itself (second observation point of the property), writing into
+            # a buffer that was not NaN-filled / that served another series before
+            if len(osec) >= 2 and unit == "ns" and tz == "naive":
+                import c_hydrodiy_data as ck
+                for fillv in (0.0, -999.0, 7.5):
+                    buf = np.full(len(ov), fillv)
+                    ierr = ck.var2h(int(maxgap), int(osec[0]), int(P), int(rainfall), 0,
+                                    np.ascontiguousarray(stamps, dtype=np.int64),
+                                    np.ascontiguousarray(vals, dtype=np.float64), buf)
+                    ctx.api("c_var2h")
+                    ctx.tag("kernel:prefilled-buffer")
+                    a, b = buf[:-1], ov[:-1]
+                    okk = ierr == 0 and bool(np.all((a == b) | (np.isnan(a) & np.isnan(b))))
+                    ctx.check("kernel.same-as-wrapper", okk,
+                              "c_var2h|differs-from-wrapper-on-prefilled-buffer", case,
+                              lambda: {"prefill": fillv, "ierr": int(ierr),
+                                       "kernel": buf[:8].tolist(), "wrapper": ov[:8].tolist()})
             try:
                 osf = call(se, scalar_forms(P, len(stamps)),
                            scalar_forms(maxgap, len(stamps) + 1), scalar_forms(rainfall))
